@@ -9,6 +9,7 @@ import (
 	"sort"
 	"strings"
 
+	"cosmossdk.io/math"
 	sdk "github.com/cosmos/cosmos-sdk/types"
 	"github.com/ethereum/go-ethereum/crypto"
 
@@ -99,6 +100,8 @@ func (s *Scn) Init() {
 	}
 	if s.nextNonce >= 0 {
 		g.line("G num name=nextnonce v=%d", uint64(s.nextNonce))
+	} else if s.nextNonce == -2 {
+		g.line("G num name=nextnonce v=18446744073709551614")
 	}
 	g.line("G num name=threshold v=%d", s.thr)
 	for i, sp := range s.spelling {
@@ -227,3 +230,10 @@ func pageArgs(key []byte, offset, limit uint64, countTotal, reverse bool) string
 }
 
 func bigInt(n int64) *big.Int { return big.NewInt(n) }
+
+func mathInt(z *big.Int) math.Int { return math.NewIntFromBigInt(z) }
+
+func decodeBech32(s string) (string, []byte, error) {
+	a, err := sdk.AccAddressFromBech32(s)
+	return "", []byte(a), err
+}
